@@ -8,3 +8,4 @@ import LLBuild.Props.EngineImplSound
 import LLBuild.Props.EngineImplTerm
 import LLBuild.Props.EngineImplAsync
 import LLBuild.Props.EngineImplSched3
+import LLBuild.Props.EngineImplAll
